@@ -62,6 +62,10 @@ func VerifRouterCount(n *RawNode) int {
 	return len(n.channel.responseRouters)
 }
 
+// VerifSetNextMsgID makes the manager continue its message IDs after base, so
+// that several managers in one process use disjoint IDs in a trace.
+func VerifSetNextMsgID(m *RawManager, base uint64) { atomic.StoreUint64(&m.nextMsgID, base) }
+
 // VerifSendQLen returns the number of requests buffered in the node's send queue.
 func VerifSendQLen(n *RawNode) int {
 	if n == nil || n.channel == nil {
